@@ -19,7 +19,9 @@ package emulator
 // RunUntil: terminates (decreases), steps only while cycles remain and the target has not been reached,
 // and reports whether the program counter equals the target on exit. The budget variable is tied to the CPU's
 // running cycle total, so 'fewer than maxCycles consumed' is a statement about real consumption whether or not a
-// Logger is attached (C14: tracing does not perturb the run).
+// Logger is attached (C14: tracing does not perturb the run). With a Logger every iteration disassembles the current
+// state afresh, writes that line, and only then steps: the three call counts stay aligned (a cached or skipped
+// line breaks the alignment).
 //@ func (*System).RunUntil
 //@   params s targetPC maxCycles
 //@   property C12 C14
@@ -30,6 +32,9 @@ package emulator
 //@   at call:Step:1 assert cycles < maxCycles && uint32(s.CPU.RK)<<16|uint32(s.CPU.PC) != targetPC
 //@   at call:Step:1 assert s.CPU.AllCycles - old(s.CPU.AllCycles) < maxCycles
 //@   loop 1 invariant cycles == s.CPU.AllCycles - old(s.CPU.AllCycles)
+//@   loop 1 invariant ncalls("(*emulator/cpu65c816.CPU).DisassembleCurrentPC") == ncalls("io.Writer.Write")
+//@   loop 1 invariant !isnil(s.Logger) ==> ncalls("io.Writer.Write") == ncalls("(*emulator/cpu65c816.CPU).Step")
+//@   at invoke:Write:1 assert ncalls("(*emulator/cpu65c816.CPU).DisassembleCurrentPC") == ncalls("io.Writer.Write")+1 && ncalls("io.Writer.Write") == ncalls("(*emulator/cpu65c816.CPU).Step")
 //@   loop 1 invariant old(uint32(s.CPU.RK)<<16|uint32(s.CPU.PC)) == targetPC ==> uint32(s.CPU.RK)<<16|uint32(s.CPU.PC) == targetPC && ncalls("(*emulator/cpu65c816.CPU).Step") == 0
 //@   loop 1 decreases ite(cycles < maxCycles, maxCycles-cycles, 0)
 //@   loop 1 modifies s.CPU, s.CPU.Bus.EA, s.CPU.Bus.Write, oa
